@@ -190,6 +190,6 @@ def register(R: Registry):
             out.append(z3.And(a.nz() == b.nz(), z3.ForAll([j], z3.Implies(z3.And(j >= 0, j < b.nz()), z3.Select(a.arr, j) == z3.Select(b.arr, j)))))
         return z3.And(*out)
 
-    R.add(f"{SWC}:DictSWC.copy", prop="C09",
+    R.add(f"{SWC}:DictSWC.copy", prop="C09", pure_inline=True,
           setup=lambda S: dict(self=sym_tree(S, "t")),
           ensures=[("equal-content-in-fresh-storage", copy_post)])
